@@ -43,8 +43,8 @@ REQUIRED_COUNTERS = {'variants_equal': 100}
 ASSUMPTIONS = ['gfortran 12 -O0 with run-time checks is the reference semantics',
                'generated kernels are well-defined by construction (original must run clean, else the case is discarded)',
                'reals compared to relative 1e-11, integers exactly']
-BUDGET_S = {'quick': 1200, 'thorough': 3600}
-CASE_TIMEOUT_S = 240
+BUDGET_S = {'quick': 2400, 'thorough': 5400}
+CASE_TIMEOUT_S = 900
 
 HOSTILES = ['overlap_fwd', 'overlap_elem', 'stride_mismatch', 'halfopen', 'where_no_loop', 'where_shifted',
             'where_multi', 'section_in_same_range_loop', 'transformational_intrinsic', 'strided_shifted',
@@ -455,8 +455,8 @@ def run_case(idx, rng, tier, ctx):
             if status == 'orig_bad':
                 res['inconclusive'] = 'generator defect: ' + info['detail'][:400]
                 break
-            if status == 'timeout':
-                res['inconclusive'] = 'transformed program timed out'
+            if status == 'timeout' or 'TIMEOUT' in (info.get('detail') or '') or 'TIMEOUT' in (info.get('new_err') or ''):
+                res['inconclusive'] = 'timeout while building/running the transformed program'
                 break
             if status == 'same-text':
                 cnt['variants_unchanged'] += 1
@@ -477,6 +477,9 @@ def run_case(idx, rng, tier, ctx):
                     key = f'{MECH[hostile]}:{v}:{coarse(cls)}'
                 elif s2 == 'orig_bad':
                     res['inconclusive'] = 'generator defect (hostile-free kernel): ' + i2['detail'][:300]
+                    break
+                elif s2 == 'timeout' or 'TIMEOUT' in (i2.get('detail') or '') or 'TIMEOUT' in (i2.get('new_err') or ''):
+                    res['inconclusive'] = 'timeout while building/running (hostile-free kernel)'
                     break
             res['violations'].append({
                 'key': key, 'msg': (info.get('detail') or '')[:500],
